@@ -82,6 +82,11 @@ package server
 //@   at return
 //@     assert [prefix-shape] prefix == "ns" + itoa(nsIndex(prefix))
 //@     use itoa_digits(nsIndex(prefix))
+//@   at call StoreObject#1 before
+//@     assert [len-grows] len(namespaceManager.prefixToExpansionMapping) == old(len(namespaceManager.prefixToExpansionMapping)) + 1
+//@     assert [new-present] has(namespaceManager.prefixToExpansionMapping, "ns" + itoa(old(len(namespaceManager.prefixToExpansionMapping))))
+//@     assert [old-kept] forall p string :: old(has(namespaceManager.prefixToExpansionMapping, p)) ==> has(namespaceManager.prefixToExpansionMapping, p)
+//@     assert [dense-after-insert] forall i int :: 0 <= i && i < len(namespaceManager.prefixToExpansionMapping) ==> has(namespaceManager.prefixToExpansionMapping, "ns" + itoa(i))
 //@   at call Itoa#1
 //@     assert [fresh-prefix] !has(namespaceManager.prefixToExpansionMapping, "ns" + itoa(len(namespaceManager.prefixToExpansionMapping)))
 //@   modifies $held, $persisted, MapDom.string.string, MapVal.string.string, MapLen.string.string, F.server.NamespacesState.*
